@@ -60,6 +60,7 @@ func (o OracleC10) After(x *Exec, op *Op, res *Res) {
 			continue
 		}
 		target := new(big.Rat)
+		sens := new(big.Rat)
 		for _, dn := range s.AssetOrder {
 			a := s.Assets[dn]
 			if T.Before(a.RewardStartTime) {
@@ -84,6 +85,9 @@ func (o OracleC10) After(x *Exec, op *Op, res *Res) {
 			t.Mul(t, decRat(vs))
 			t.Quo(t, bondedShares)
 			target.Add(target, t)
+			// sensitivity of the target to the native bonded amount: weight x the validator's fraction of
+			// the asset's bonded shares (which share-total dust, F-C03, can push above 1)
+			sens.Add(sens, new(big.Rat).Quo(new(big.Rat).Mul(decRat(a.RewardWeight), decRat(vs)), bondedShares))
 		}
 		got := s.Vals[i].ModTokens()
 		// tolerance: two base units, plus the module's own truncation of the alliance-bonded
@@ -92,7 +96,11 @@ func (o OracleC10) After(x *Exec, op *Op, res *Res) {
 		// tolerance: two base units, plus the module's truncation of the alliance-bonded total
 		// (less than one unit, scaled by the weights), plus the staking exchange rate
 		tol := big.NewRat(2, 1)
-		tol.Add(tol, new(big.Rat).Mul(sumW, big.NewRat(2, 1)))
+		if sens.Cmp(sumW) > 0 {
+			tol.Add(tol, new(big.Rat).Mul(sens, big.NewRat(2, 1)))
+		} else {
+			tol.Add(tol, new(big.Rat).Mul(sumW, big.NewRat(2, 1)))
+		}
 		tol.Add(tol, new(big.Rat).Mul(target, big.NewRat(1, 1_000_000_000_000_000)))
 		if s.Vals[i].Shares.IsPositive() && !s.Vals[i].Tokens.IsZero() {
 			// tokens per share > 1 makes each share unit worth more than one token
